@@ -1,15 +1,43 @@
 # executed by mkmanifest.py
-NOTE = ("Trusted: Coq 8.16.1 kernel + vm_compute; the hand-written model is tied to /repo by the correspondence check of "
-        "every run (generated inputs, real physical layouts read back through pyarrow); Arrow kernels / pandas enter as "
-        "named contracts with canonical instances; no axioms (Print Assumptions: Closed under the global context).")
+NOTE = ("Trusted: Coq 8.16.1 kernel + vm_compute (case evaluation, _refuted witnesses); no axioms (every theorem of the Props file: "
+        "Print Assumptions = Closed under the global context, re-checked on every run); the hand-written Gallina model (coq/theories) "
+        "is tied to /repo by the correspondence check of every run (generated inputs, real physical layouts read back through "
+        "pyarrow accessors, evaluated against model and spec inside coqc); Arrow kernels (take/filter/if_else/combine_chunks) and "
+        "pandas operations enter through canonical executable instances whose logical behaviour is what the theorems use; "
+        "harness generators / tokenisation / verdict reader; see DESIGN.md section 8.")
+claim("C01",
+      "Theorems (Props/C01.v): the invariant inv_b (well-formed offsets, identical offsets windows, storage schema = dtype, present rows hold lists, "
+      "missing rows hide nothing) is preserved by EVERY step of the array-level operation alphabet (Steps.v) and hence holds of every array born "
+      "along a history of ANY length (trace_inv, induction over the op list); it implies rectangular rows and schema = dtype; the validating "
+      "constructor accepts only rectangular input and refuses every ragged one. Correspondence: every entry point (constructor, from_sequence, "
+      "pack_seq, Series(dtype), pack_lists, from_lists, take/reindex fill value, astype, read_parquet) offered well-formed and ragged content, "
+      "plus random histories; EVERY array born during a step (guarded hook) is read back and checked by the Coq monitor wf_rect_b.",
+      NOTE, "Coq proof (inductive invariant over operation histories) + correspondence check with born-array monitor", "DESIGN.md 6/C01")
 claim("C03",
       "Theorems (Props/C03.v) prove for EVERY well-formed physical layout (any chunking, any offsets base, any size) that each "
       "modelled view equals the corresponding function of the one logical column abs p; the correspondence check runs all views "
-      "of the real object on ~13 layout recipes and compares them with model and spec inside coqc.",
+      "of the real object on ~15 layout recipes (incl. objects that have lived through reads and in-place writes) and compares them with model and spec inside coqc.",
       NOTE, "Coq proof (refinement physical model -> logical spec) + correspondence check", "DESIGN.md 6/C03")
-
+claim("C04",
+      "Theorem (Props/C04.v): two physical columns satisfying the invariant that denote the same logical column give the same logical results "
+      "(or both fail) under ANY history of the operation alphabet, and all read-only views coincide; corollary of the all-layout refinement "
+      "theorems; the single layout hypothesis (missing rows hide no children) is shown necessary by a refuted witness = known finding. "
+      "Correspondence: the same operation with identical arguments on 4-8 layouts of each content, each compared with model, spec and each other.",
+      NOTE, "Coq proof (layout independence as corollary of refinement) + cross-layout correspondence check", "DESIGN.md 6/C04")
 claim("C05",
-      "Correspondence: every selection / take / concat / copy / dropna / pickle / element-assignment form is run on the real array in 11 "
-      "layouts and compared three ways (Coq model, Coq spec = Python sequence semantics, a plain Python list); frame-level row moves keep "
-      "each nested table with its base id. Theorems (Props/C05.v) cover the index arithmetic of the model (see file).",
-      NOTE, "Coq proof (sequence semantics of the model) + three-way correspondence check", "DESIGN.md 6/C05")
+      "Theorems (Props/C05.v): for EVERY column satisfying the invariant and every indexer / value in the property's domain, int / slice / mask / "
+      "int-array selection, take (negatives, fill), concat, copy, dropna, pickle and element assignment (cumulative-sum masked replace, argsort "
+      "of distinct targets) denote exactly Python sequence semantics on the list of rows, errors included, and so do histories of any length. "
+      "Correspondence: three-way (real library, Coq model/spec, plain Python list) on 15 layouts, isolation probe on every result, frame-level row moves.",
+      NOTE, "Coq proof (refinement to Python sequence semantics) + three-way correspondence check", "DESIGN.md 6/C05")
+claim("C06",
+      "Theorems (Props/C06.v): view_fields / pop_fields / set_list_field / set_flat_field / fill_field_lists on EVERY column satisfying the invariant "
+      "denote spec_set_field / spec_select_fields, whose frame condition (same missing rows, other fields and types identical, same row lengths, "
+      "edited field = supplied values in flat order) is proved separately; results satisfy the invariant again. Correspondence: every edit form "
+      "through array, accessor and NestedFrame['n.f']=... on 15 layouts with whole-frame before/after snapshots.",
+      NOTE, "Coq proof (refinement + frame condition) + correspondence check", "DESIGN.md 6/C06")
+claim("C19",
+      "Theorems (Props/C19.v): on EVERY column satisfying the invariant the list-of-structs export holds the same records per row (missing rows stay "
+      "missing), import of the export denotes the same column and keeps the invariant, transposing twice is the identity, import of any well-formed "
+      "list-of-structs chunk keeps its rows. Correspondence: export/import/double transposition/astype/Table.from_pandas/casts on 15 layouts.",
+      NOTE, "Coq proof (transposition refinement) + correspondence check", "DESIGN.md 6/C19")
